@@ -297,12 +297,13 @@ func exploreMain(args []string) {
 	get := loadFlags(fs)
 	workers := fs.Int("workers", 16, "")
 	maxp := fs.Int("maxpaths", 0, "")
+	maxw := fs.Int("maxwall", 600, "stop after this many seconds (result is then incomplete)")
 	verbose := fs.Bool("v", true, "")
 	fs.Parse(args)
 	ls := get()
 	pl := newPool(ls)
 	defer pl.close()
-	r := explore(pl, ls, exploreOpts{Workers: *workers, MaxPaths: *maxp, Samples: 3, MaxViol: 3, Verbose: *verbose})
+	r := explore(pl, ls, exploreOpts{Workers: *workers, MaxPaths: *maxp, MaxWall: time.Duration(*maxw) * time.Second, Samples: 3, MaxViol: 3, Verbose: *verbose})
 	seen := map[string]int{}
 	for _, v := range r.Violations {
 		seen[v.Label+" "+v.Msg]++
